@@ -188,3 +188,17 @@ CLAIMS["C13"] = {
     "note": "Trusted: in-place numpy/pandas operators mutate their target. Values computed by the estimators are not compared "
             "numerically; absence of cross-request data flow is what is decided.",
 }
+
+CLAIMS["C04"] = {
+    "technique": "def-use term of the nonparametric interval function (helpers inlined, solver/featurizer objects distinguished by "
+                 "construction site) matched clause by clause against the split-conformal procedure; arithmetic sub-formulas compared "
+                 "as rational functions",
+    "level": "Decides for every calibration set, alpha and robust setting that the code computes exactly the procedure the statement "
+             "defines: scores max(L(x)-r, r-U(x)) on the calibration rows with L/U fitted at (1-+alpha)/2 on the training rows; level "
+             "alpha(1+1/n_cal); weighted correction = smallest score whose cumulative normalised baseline weight strictly exceeds the "
+             "level, in ascending score order; robust = max with the unweighted quantile; one correction applied symmetrically, "
+             "un-normalised, floored, rounded; seeded shuffle, floor(n*frac) training rows, the rest calibration, matrix slices "
+             "agreeing with frame slices. The coverage clause follows by the split-conformal theorem (cited, not machine-checked).",
+    "note": "Not decided: the probabilistic clause itself (a statement about a distribution of elections) and validity of the level "
+            "<= 1 for all (alpha, n) (arithmetic; C14 / O1). Solver semantics trusted.",
+}
